@@ -58,7 +58,52 @@ def run(ctx):
     from .sentinels import sentinel_rule
     sentinel_rule(prog, r2, [f for f in prog.funcs.values() if "asn1-tools/" in f.relfile],
                   {"ber_fetch_tag": (0, -1), "ber_fetch_length": (0, -1)})
-    return [r1, r2, r20_3(prog)]
+    return [r1, r2, r20_3(prog), r20_4(prog)]
+
+
+def r20_4(prog):
+    """Fixed-size global tables of the tools (and of the parser headers they include) are subscripted by a value taken from
+    the input only on the bounded edge of an upper-bound comparison of that value: the tag number of a TLV is chosen by the
+    input (`[UNIVERSAL 31+]` is legal BER), the universal-tag name table has 32 entries."""
+    import re as _re
+    r = Rule("R20.4", "global fixed-size tables in the tools are indexed only behind an upper-bound test of the index", floor=3)
+    for f in sorted(prog.funcs.values(), key=lambda f: f.key):
+        if "asn1-tools/" not in f.relfile and "libasn1parser/asn1p_expr" not in f.relfile:
+            continue
+        n = 0
+        for b, i, e in sorted(f.events("subscript"), key=lambda z: (z[2].get("line") or 0, z[0].id, z[1])):
+            bt = strip_casts(e["basex"]["tree"])
+            if not (is_var(bt) and bt[2] not in ("local", "param") and _re.search(r"\[\d+\]$", bt[3] or "")):
+                continue
+            if "const" in e["index"]:
+                continue
+            n += 1
+            ivars = {x[1] for x in walk(e["index"]["tree"]) if x[0] == "var"}
+            key = "%s[%s]#%d" % (bt[1], e["index"].get("text", "?")[:20], n)
+            ok = None
+            for d in f.dominators().get(b.id, ()):
+                tb = f.blocks[d]
+                if not tb.term or "cond" not in tb.term or len(tb.succ) < 2:
+                    continue
+                c = strip_casts(tb.term["cond"]["tree"])
+                if not (isinstance(c, list) and c and c[0] == "bin" and c[1] in ("<", "<=", ">", ">=")):
+                    continue
+                lv = {x[1] for x in walk(c[2]) if x[0] == "var"}
+                rv = {x[1] for x in walk(c[3]) if x[0] == "var"}
+                op = c[1]
+                if rv & ivars and not (lv & ivars):
+                    op = {"<": ">", "<=": ">=", ">": "<", ">=": "<="}[op]
+                elif not (lv & ivars):
+                    continue
+                bounded_idx = 0 if op in ("<", "<=") else 1
+                if f.edge_dominates(d, bounded_idx, b.id):
+                    ok = tb.term.get("line")
+            if ok is not None:
+                r.ok(f, key, "reached only through the bounded edge of the comparison at line %s" % ok, e["line"])
+            else:
+                r.bad(f, key, "`%s` (%s) is indexed with `%s` and no upper-bound comparison of the index guards the access: a tag number or "
+                              "similar value from the input reads past the table" % (bt[1], bt[3], e["index"].get("text")), e["line"])
+    return r
 
 
 def r20_3(prog):
